@@ -108,6 +108,12 @@ func ModStmts() []Stmt {
 	add("retract", "retract (\n\t[v1.0.0, v1.0.0] // same\n\tv1.3.0\n)\n")
 	addFix("retract", "retract [v1.2, v1.2]\n")
 	addFix("retract", "retract v1 // short\n")
+	// comments, blank lines and directives in every order inside a block (and a block comment above)
+	add("retract", "retract (\n\t// why\n\n\tv1.0.0\n)\n")
+	add("retract", "// block\nretract (\n\t// p1\n\n\t// p2\n\tv1.0.0\n\n\tv1.1.0 // s\n\n\t// p3\n\n)\n")
+	add("require", "require (\n\t// c1\n\n\ta.com/x v1.0.0\n\n\t// c2\n\n\t// c3\n\tb.com/y v1.1.0 // indirect\n)\n")
+	add("module", "// Deprecated: gone\nmodule (\n\t// c\n\n\texample.com/m\n)\n")
+	add("exclude", "exclude (\n\n\t// c\n\n\ta.com/x v1.0.0\n\n)\n")
 	// tool
 	add("tool", "tool a.com/x/cmd\n")
 	add("tool", "tool (\n\ta.com/x/cmd // s\n\tb.com/y/cmd\n)\n")
